@@ -715,6 +715,9 @@ func TestVerifC04Drop(t *testing.T) {
 	e.MaxSteps = 600
 	e.Deadline = time.Now().Add(ev.Budget(150 * time.Second))
 	e.OnExec = func(sc *sched.Scenario, choices []int) { fmt.Printf("EXEC %s %v\n", sc.Name, choices) }
+	if os.Getenv("VERIF_FREE") != "" {
+		e.Free, e.FreeRuns = true, 3
+	}
 	var wrapped []*sched.Scenario
 	for _, sc := range scs {
 		props := "14"
